@@ -491,4 +491,38 @@ def main(ctx):
         c03.run(ctx, prog2, only=r'^verify_jws/')
         c04.run(ctx, prog2, only=r'^resolve_method/|^resolve_method_ref/|^DIDUrlQuery::matches/')
     guarded(ctx, 'verification side', 'M', verification_side)
+
+    def options_builders():
+        # the verification options a caller builds are the ones verification sees: every builder method stores Some(argument) in its
+        # own field and passes the other fields on (a setter that "simplifies" a scope to None widens what the token verifies under)
+        prog2, info2 = load(['identity_document'], src_only=['identity_verification', 'identity_did'])
+        A = Auditor(ctx, prog2)
+        JO = prog2.structs['JwsVerificationOptions']
+        for fld_ in ('nonce', 'method_scope', 'method_id'):
+            f = prog2.one(r'jws_verification_options::<impl at [^>]*>::%s$' % fld_)
+            paths, ex = A.paths(f)
+
+            def r_set(p, fld_=fld_):
+                if p.kind != 'return':
+                    return 'panic ' + p.msg
+                v = p.val
+                if not (isinstance(v, VAgg) and len(v.fields) == len(JO)):
+                    t = p.term()
+                    return 'result is not the options value'
+                for i, nm in enumerate(JO):
+                    t = strip(p.term(v.fields[i]))
+                    if nm == fld_:
+                        if not (isinstance(t, tuple) and t[0] == 'agg' and t[2] == 'Some' and mentions(t, r'^value$')):
+                            return '%s(value) does not store Some(value)' % fld_
+                        inner = strip(t[3][0])
+                        if inner != ('leaf', 'value'):
+                            return '%s(value) stores something derived from the value, not the value' % fld_
+                    else:
+                        fp = field_path(t)
+                        if not (fp and fp[0] == 'self' and [j for _, j in fp[1]] == [i]):
+                            return '%s(value) disturbs the field %s' % (fld_, nm)
+                return None
+            A.require('JwsVerificationOptions::%s/stores-the-argument-as-given' % fld_, paths, r_set,
+                      replay={'scenario': 'storage_signing', 'cex': {'only': 'scope' if fld_ == 'method_scope' else ('nonce' if fld_ == 'nonce' else 'method id')}})
+    guarded(ctx, 'verification options builders', 'M', options_builders)
     guarded(ctx, 'storage-backed signing', 'M', lambda: storage_signing(ctx))
